@@ -1166,8 +1166,11 @@ def main(R):
                      "with inplace + out= + default= the non-tensor payloads of out equal those of self (the code aliases entry objects there, the functional model does not)",
                      "lazy stacks through the stacked view (batch_size override), lazy stacks with a thread pool and aliased operands are checked by the oracle only"]
     R.trusted = ["harness/c20_ref.py: the reference (nested dicts) is my reading of the documented contract of apply"]
+    t00 = time.time()
     R.step_prove()
     ok = R.step_driver()
+    R.extra["build_s"] = round(time.time() - t00, 1)
+    t00 = time.time()
     pts = lattice()
     nscenes = 40 if R.quick else 300
     kinds = sorted(set(KIND_MIX))
@@ -1180,6 +1183,7 @@ def main(R):
             sc = R.rng.choice(scenes[kindname])
             cases.append(make_case(R.rng, pt, sc, kindname, R.rng.randrange(0, 1 << 16)))
     R.extra["lattice_points"] = len(pts)
+    R.extra["generate_s"] = round(time.time() - t00, 1)
     nproc = min(15, os.cpu_count() or 2)
     ctx = mp.get_context("fork")
     lines_all = [model_line(c, c["perm"]) for c in cases]
@@ -1196,6 +1200,7 @@ def main(R):
         results = pool.map(_work, chunks(list(zip(cases, mres)), nproc * 12), chunksize=1)
     R.extra["impl_s"] = round(time.time() - t2, 1)
     flat = [x for part in results for x in part]
+    t3 = time.time()
     for ci, ((fails, mism, cnt), case) in enumerate(zip(flat, cases)):
         key = json.dumps(case, sort_keys=True, default=str)
         R.case(hash(key), nontrivial=bool(case["self"][3]),
@@ -1210,7 +1215,9 @@ def main(R):
             R.oracle_fail(label, c, detail, sig)
         for (label, c, io, mo) in mism:
             R.mismatch(label, c, io, mo)
-    R.exhaustive = True
+    R.exhaustive = False            # the option lattice is enumerated completely, the operand structures are sampled
+    R.extra["option_lattice_enumerated_completely"] = True
+    R.extra["collect_s"] = round(time.time() - t3, 1)
 
 
 def replay(body):
